@@ -32,8 +32,24 @@ let rec dump (e : expr) : string =
   | EEmpty -> "N"
   | ESizeof v -> "Z131072(" ^ hex_of_zl (print fx c15fix e) ^ ")"
   | EThrow v -> "Z2097152(" ^ hex_of_zl (print fx c15fix e) ^ ")"
-  | ETuple v -> "Z33554432(" ^ hex_of_zl (print fx c15fix e) ^ ")"
+  | ETuple v -> "Z68719476736(" ^ hex_of_zl (print fx c15fix e) ^ ")"
   | EPair (_, _) -> "PAIR"
+
+let show_token (t : token) : string =
+  match t with
+  | TIdent v -> "I" ^ hex_of_zl v
+  | TPrim v -> "P" ^ hex_of_zl v
+  | TOp o -> "O" ^ hex_of_zl o.op_sym
+  | TNewline -> "N"
+  | TChar (e, v, u) -> "C" ^ string_of_int (int_of_z e) ^ "." ^ hex_of_zl v ^ "." ^ hex_of_zl u
+  | TString (e, v, u) -> "S" ^ string_of_int (int_of_z e) ^ "." ^ hex_of_zl v ^ "." ^ hex_of_zl u
+  | TComment v -> "K" ^ hex_of_zl v
+  | TUnknown c -> "U" ^ hex_of_zl [c]
+let token_dump (b : z list) : string =
+  match tokenize fx tokenizer_ops (cstring b) with
+  | Ok ts -> String.concat "," (List.map show_token
+               (List.filter (function TNewline | TComment _ -> false | _ -> true) ts))
+  | _ -> "OOB"
 
 let parse_bytes (b : z list) : expr option option =   (* None = OOB/NOFUEL *)
   match parse_source fx (cstring b) with
@@ -50,11 +66,13 @@ let () =
         (match parse_bytes src with
          | None -> print_string ("R " ^ kind ^ " OOB\n")
          | Some None -> print_string ("R " ^ kind ^ " ERR\n")
+         | Some (Some (EPair (_, _))) -> print_string ("R " ^ kind ^ " PAIR\n")
          | Some (Some e) ->
            let printed = print fx c15fix e in
            let second = (match parse_bytes printed with
                | None -> "OOB" | Some None -> "ERR" | Some (Some e2) -> dump e2) in
-           print_string ("R " ^ kind ^ " " ^ dump e ^ "|" ^ hex_of_zl printed ^ "|" ^ second ^ "\n"));
+           print_string ("R " ^ kind ^ " " ^ dump e ^ "|" ^ hex_of_zl printed ^ "|" ^ second
+                         ^ "|" ^ token_dump src ^ "|" ^ token_dump printed ^ "\n"));
         if kind = "F" then print_string "S F RT\n"
         else begin
           match tokenize fx tokenizer_ops (cstring src) with
